@@ -7,20 +7,21 @@ for d in sorted(glob.glob(os.path.join(root, 'seeded', 'C*'))):
     if not os.path.isdir(d):
         continue
     m = json.load(open(os.path.join(d, 'meta.json')))
-    rows.append((os.path.basename(d), m.get('property', ''), m.get('summary', ''), m.get('needs', ''), m.get('check_result', '')))
+    rows.append((os.path.basename(d), m.get('property', ''), m.get('summary', ''), m.get('needs', ''), m.get('check_result', ''), m.get('final_status', '')))
 def short(s, n):
     s = re.sub(r'\s+', ' ', s).replace('|', '/')
     return s if len(s) <= n else s[:n - 1] + '…'
 out = ['# Seeded changes (from independent sub-agents) and what the checks did with them', '',
        'Each directory holds `patch.diff` (against /repo HEAD at the time), the demonstration test and `meta.json`.',
        'Every change was confirmed by `tools/seeded.sh` (scratch worktree: demo passes unchanged; patch applies, builds, pinned suite green, demo fails)',
-       'and then run against the quick tier of its property (`VERIF_REPO=<patched worktree> bin/check <id> --tier quick --noevidence`).', '',
-       '| id | what was changed | needs | result |', '|---|---|---|---|']
+       'and then run against the quick tier of its property (`VERIF_REPO=<patched worktree> bin/check <id> --tier quick --noevidence`).',
+       'Last column: the full regression run of every kept patch against the final quick checks (`tools/mutant.sh seeded/<id>/patch.diff <ID>`).', '',
+       '| id | what was changed | needs | result when kept | on the final tree |', '|---|---|---|---|---|']
 miss = 0
 for r in rows:
     if r[4].startswith('MISSED') or r[4].startswith('INCONCLUSIVE'):
         miss += 1
-    out.append('| %s | %s | %s | %s |' % (r[0], short(r[2], 260), short(r[3], 200), short(r[4], 260)))
+    out.append('| %s | %s | %s | %s | %s |' % (r[0], short(r[2], 260), short(r[3], 200), short(r[4], 260), short(r[5], 200)))
 out += ['', '%d changes kept; %d of them were missed (or inconclusive) by the first version of the check and are caught after strengthening.' % (len(rows), miss)]
 open(os.path.join(root, 'seeded', 'RESULTS.md'), 'w').write('\n'.join(out) + '\n')
 print(len(rows), 'rows,', miss, 'first missed')
